@@ -198,6 +198,7 @@ type CExpect struct {
 	// RangeLoose: for Range with early stop the visited set is any subset of the
 	// live entries of size N (Pairs holds all live entries).
 	RangeLoose bool
+	bulk       bool // bulk keys present: an early-stopped Range may have spent visits on them
 }
 
 // cacheApply is the sequential specification.
@@ -328,10 +329,15 @@ func cacheApply(s CState, in CIn) (CExpect, CState) {
 				m[i] = int(s.Ent[i].V)
 			}
 		}
-		ex.Out = COut{Pairs: sortedPairs(m), N: len(m)}
-		if in.Op == CRange && in.Stop > 0 && in.Stop < len(m) {
+		total := len(m)
+		if s.Bulk {
+			total += bulkN // the bulk keys (outside the alphabet) are visited too
+		}
+		ex.Out = COut{Pairs: sortedPairs(m), N: total}
+		if in.Op == CRange && in.Stop > 0 && in.Stop < total {
 			ex.Out.N = in.Stop
 			ex.RangeLoose = true
+			ex.bulk = s.Bulk
 		}
 	case CRangeVisit:
 		if s.live(k) {
@@ -399,7 +405,7 @@ func (ex *CExpect) matches(got COut, ignoreFn, ignoreFired bool) bool {
 			}
 			cnt++
 		}
-		return cnt == want.N
+		return cnt == want.N || (ex.bulk && cnt <= want.N)
 	}
 	return want == got
 }
